@@ -339,16 +339,13 @@ func (lam *Lambda) Compile(s *Scope, extraVars ...string) {
 					break expand
 				}
 			}
-			vv := CurrentPackage.GetVarVal(name)
-			if vv == nil {
-				CurrentPackage.mu.Lock()
-				if vv = CurrentPackage.vars[name]; vv == nil {
-					vv = newUnboundVar(name)
-					CurrentPackage.vars[name] = vv
-				}
-				CurrentPackage.mu.Unlock()
+			// A variable that is not defined yet is looked up when the
+			// symbol is evaluated. No entry is made for it, an entry for
+			// an undefined variable would hide a variable of a package
+			// used later on and be taken for a variable of this package.
+			if vv := CurrentPackage.GetVarVal(name); vv != nil {
+				lam.Forms[i] = vv
 			}
-			lam.Forms[i] = vv
 		case List:
 			lam.Forms[i] = CompileList(tf)
 		}
